@@ -140,6 +140,9 @@ pub fn run(ctx: &Ctx) -> i32 {
   for &d in &bd {
     nodes.extend(deep_border_nodes(d));
   }
+  for &(lon, lat) in fibonacci_points(if quick { 500 } else { 10_000 }).iter() {
+    nodes.push(ref_proj(lon, lat));
+  }
   let turns: Vec<f64> = if quick { vec![0.0, 3.0] } else { vec![0.0, -1.0, 3.0] };
   let chunk = 256;
   let mut lo = 0;
